@@ -287,9 +287,31 @@ impl PartialOrd for NumberValue {
 
 impl Ord for NumberValue {
     fn cmp(&self, other: &Self) -> Ordering {
-        let me: f64 = self.into();
-        let other: f64 = other.into();
-        me.total_cmp(&other)
+        // Two integers are compared as integers: going through f64 would tie
+        // different integers beyond 2^53 (and leave them unsorted and unmerged).
+        match (self, other) {
+            (NumberValue::Positive(me), NumberValue::Positive(other)) => me.cmp(other),
+            (NumberValue::Negative(me), NumberValue::Negative(other)) => me.cmp(other),
+            (NumberValue::Negative(me), NumberValue::Positive(other)) => {
+                if *me < 0 {
+                    Ordering::Less
+                } else {
+                    (*me as u64).cmp(other)
+                }
+            }
+            (NumberValue::Positive(me), NumberValue::Negative(other)) => {
+                if *other < 0 {
+                    Ordering::Greater
+                } else {
+                    me.cmp(&(*other as u64))
+                }
+            }
+            _ => {
+                let me: f64 = self.into();
+                let other: f64 = other.into();
+                me.total_cmp(&other)
+            }
+        }
     }
 }
 
